@@ -72,3 +72,12 @@ Example ex2_remove_tags :
   RemoveOk 3 (T Black (T Black E 4 4 (T Red E 5 5 E)) 6 6 (T Black E 7 7 (T Red E 8 8 E)))
            [TU_leaf_black; TF_case1_L; TF_case2_red_L].
 Proof. vm_compute. reflexivity. Qed.
+
+(* hypothesis `rbwf t` of the per-subtree removal invariant, on a tree where the removal goes through a
+   deficit (black leaf 30 removed below the red node 27) *)
+Example ex_rbwf_del :
+  rbwf ex_tree /\ exists j t' st tg, del 30 ex_tree = DelRes j t' st tg /\ In TU_leaf_black tg.
+Proof.
+  split; [vm_compute; intuition discriminate|].
+  vm_compute. eexists. eexists. eexists. eexists. split; [reflexivity|]. simpl. auto.
+Qed.
